@@ -1,5 +1,6 @@
 SPECIFICATION MCSpec
-CONSTANTS Role = TRUE
+CONSTANTS
+  ReadMax = 0 Role = TRUE
  PeerBudget = 2
  UserBudget = 2
  Faults = TRUE
